@@ -114,6 +114,37 @@ CLAIMED['C17'] = dict(
          'held by real means); method-specific faults count as served; one defective parameter at a time. Known '
          'finding F12 (restart_application / NOT_MANAGED).')
 
+PLACE_NOTE = ('Trusted: SimCluster; situations realised with really running load processes, real disable XML-RPC, crashed '
+              '/ restarted instances; the oracle (TLC) uses the view reported by the requester XML-RPCs and the true '
+              'Supervisor configurations. Sampled, not exhaustive (the definition itself is checked by TLC over its full '
+              'small space).')
+CLAIMED['C04'] = dict(
+    engine='Placement',
+    technique='definition-level TLA+ spec (Placement.tla: eligibility incl. node load and pending requests) checked by '
+              'TLC over its full small space + sampled situations realised on real cores and judged by TLC '
+              '(PlacementMon) + concurrent application start scenario',
+    text='Eligibility is a case-rich definition over instances, nodes, loads and rules: TLC checks the definition, the '
+         'harness realises seeded situations on a real 3-instance / 2-node cluster and TLC judges every observed '
+         'START request (OnlyEligible, NoResource, Starved).',
+    design_ref='DESIGN.md 3 C04', note=PLACE_NOTE + ' Known finding F17 (concurrent applications).')
+CLAIMED['C14'] = dict(
+    engine='Placement',
+    technique='definition-level TLA+ spec (Placement.tla: Choice per strategy, ties admitted) + sampled situations x 6 '
+              'strategies realised on real cores and judged by TLC (PlacementMon) + SINGLE_INSTANCE / SINGLE_NODE '
+              'scenarios judged by TLC (PlacementDistMon)',
+    text='The strategy is a definition over the eligible set: observed targets must belong to the Choice set computed by '
+         'TLC from the requester view; whole-application placement is judged on distribution scenarios including '
+         'instances of one node knowing different programs.',
+    design_ref='DESIGN.md 3 C14', note=PLACE_NOTE + ' Known finding F14 (SINGLE_NODE, heterogeneous instances).')
+CLAIMED['C19'] = dict(
+    engine='Placement',
+    technique='TLC monitor (PredictMon) over (snapshot, predictions, snapshot, real start) records from sampled placement '
+              'situations realised on real cores; placement definition shared with C04/C14',
+    text='Prediction = UNCHANGED on every observable + equality with the placement of a real start from the same '
+         'situation: both are observed on real cores (full XML-RPC snapshot incl. per-instance information, wire) '
+         'and judged by TLC.',
+    design_ref='DESIGN.md 3 C19', note=PLACE_NOTE)
+
 PENDING_REASON = 'check not built yet (work in progress; see DESIGN.md section 3)'
 
 
